@@ -177,7 +177,7 @@ class C02(SingleRun):
             "engine commands; status clauses evaluated after every handler; non-trivial = the run visited >= 3 distinct workflow "
             "statuses and a control request landed while >= 1 action was in flight")
     faults = dict(poll_skip=0.05, poll_twice=0.05, restart=0.03, pause=0.04, resume_early=0.1, cancel=0.04,
-                  bad_request=0.03, pending=0.05)
+                  bad_request=0.03, pending=0.05, cancel_while_pausing=0.1)
 
     def nontrivial(self, r):
         w = r["world"]
@@ -191,7 +191,16 @@ class C03(SingleRun):
             "quiescent point (nothing in flight, fresh get_next_tasks() empty); non-trivial = a quiescent point was reached with a "
             "status other than succeeded, or >= 2 quiescent points in one run")
     faults = dict(poll_skip=0.1, poll_twice=0.05, restart=0.03, pause=0.04, resume_early=0.05, cancel=0.04,
-                  bad_request=0.02, rerun=0.5, pending=0.05)
+                  bad_request=0.02, rerun=0.5, pending=0.05, cancel_while_pausing=0.1)
+
+    def profile(self, seed, tier, as_prop=None):
+        p = SingleRun.profile(self, seed, tier, as_prop)
+        if Keyed(seed).u("profile", "pause_cancel_items") < 0.15:
+            # two requests in a row over a with-items window: pause with items held back, cancel
+            # before the workflow has come to rest, a sibling action reporting last
+            p["require_features"] = ["with_items"]
+            p["faults"].update(pause=0.2, cancel=0.0, cancel_while_pausing=0.5, resume_early=0.0, rerun=0.0)
+        return p
 
     def nontrivial(self, r):
         rp = r["world"].resting_points
@@ -253,7 +262,7 @@ class C07(SingleRun):
     RULE = ("definitions with join: all / join: N over 2-5 inbound branches of unequal depth, branches that fail / are remediated / "
             "conditionally skip the join; arrival orders explored through latencies; non-trivial = a join was offered after >= 2 "
             "arrivals delivered out of start order, or a barrier ended unsatisfied")
-    faults = dict(poll_skip=0.15, poll_twice=0.05, restart=0.03, p_fail=0.15)
+    faults = dict(poll_skip=0.15, poll_twice=0.05, restart=0.03, p_fail=0.15, pause=0.03, resume_early=0.1)
     require_features = ["join"]
     kf_share = 0.3
 
@@ -261,6 +270,11 @@ class C07(SingleRun):
         p = SingleRun.profile(self, seed, tier, as_prop)
         p["force_gates"] = {"join": True, "fork": True}
         p["size"] = [4, 5, 6, 7, 8, 10, 12]
+        if Keyed(seed).u("profile", "items_fail") < 0.25:
+            # a with-items task that failed and was remediated keeps a flagged entry in the staging
+            # list for the rest of the run: joins must be judged reachable or not regardless of it
+            p["faults"]["p_fail"] = 0.35
+            p["require_features"] = ["join", "with_items"]
         return p
 
     def nontrivial(self, r):
@@ -273,7 +287,15 @@ class C10(SingleRun):
     RULE = ("cancel requested at a keyed handler gap from running / pausing / paused / resuming; in-flight actions afterwards report "
             "success, failure, timeout or canceled; joins, retries and with-items windows downstream; non-trivial = >= 1 action in "
             "flight at the request and a join, retry or with-items task in the definition")
-    faults = dict(poll_skip=0.05, restart=0.03, cancel=0.12, pause=0.04, resume_early=0.1, p_fail=0.1, bad_request=0.02)
+    faults = dict(poll_skip=0.05, restart=0.03, cancel=0.12, pause=0.04, resume_early=0.1, p_fail=0.1, bad_request=0.02,
+                  cancel_while_pausing=0.1)
+
+    def profile(self, seed, tier, as_prop=None):
+        p = SingleRun.profile(self, seed, tier, as_prop)
+        if Keyed(seed).u("profile", "pause_cancel_items") < 0.12:
+            p["require_features"] = ["with_items"]
+            p["faults"].update(pause=0.2, cancel=0.0, cancel_while_pausing=0.5, resume_early=0.0)
+        return p
 
     def nontrivial(self, r):
         f = r["prog"]["_features"]
